@@ -195,7 +195,8 @@ def r18_2(ctx):
                         (M1.gives_bytes and dig[0][1] is M1.call))
     ctx.ob('R18.2', 'deliver_challenge:digest-bytes', ok, dc, None, '%s = <keyed digest>.digest()' % dname)
     rv = [(n, c) for (n, c) in q.calls(dc, conn + '.recv_bytes')]
-    rname = ast.unparse(rv[0][0].ast.targets[0]) if rv and isinstance(rv[0][0].ast, ast.Assign) else '?'
+    rname = ast.unparse(rv[0][0].ast.targets[0]) if rv and isinstance(rv[0][0].ast, ast.Assign) else \
+        dc.canon(rv[0][1]) if rv and rv[0][0].kind == 'test' else '?'      # ... or compared where it is read
     eq = (q.eq_text(rname, dname), 'hmac.compare_digest(%s, %s)' % (rname, dname), 'hmac.compare_digest(%s, %s)' % (dname, rname))
     wel = [(n, c) for (n, c) in sends if ast.unparse(c.args[0]) == 'WELCOME']
     fai = [(n, c) for (n, c) in sends if ast.unparse(c.args[0]) == 'FAILURE']
